@@ -446,6 +446,7 @@ def deep_source(construct, depth):
 
 def run_cli(argv, stdin=b"", timeout=60, env=None):
     e = dict(os.environ, NO_COLOR="1")
+    e.pop("RUST_BACKTRACE", None)
     if env:
         e.update(env)
     try:
@@ -465,9 +466,14 @@ def cli_verdict(agg, rc, out, err, desc, replay, family):
         agg.inconc("oom")
         return
     bad = None
+    pm = re.search(r"panicked at ([^\n]+?):[0-9]+:[0-9]+:\n([^\n]*)", errs)
     if rc not in (0, 1, 2):
         if "overflowed its stack" in errs:
             bad = {"kind": "native_stack_overflow", "where": "cli", "family": family}
+        elif pm:
+            # a panic of the tool: identified by where it was raised and its message (not by the tail of stderr, which
+            # depends on RUST_BACKTRACE)
+            bad = {"kind": "panic", "where": "cli", "loc": re.sub(r"^.*/registry/src/[^/]+/", "", pm.group(1)), "msg": _NORM.sub("N", pm.group(2))[:120]}
         else:
             bad = {"kind": "cli_exit", "exit": rc, "family": family, "stderr": _NORM.sub("N", errs[-120:])}
     elif "panicked at" in errs or "internal error" in errs:
